@@ -530,6 +530,7 @@ def run_history(hist, stop_on_violation=True, use_known=True):
     finally:
         if env.SIM_ID.reuses:
             w.stats["fault.id_reuse"] = env.SIM_ID.reuses
+        w.abandon_held()
         if w._tmpdir is not None:
             import shutil
 
@@ -1757,7 +1758,7 @@ class C15(Prop):
         "per-manager stack model is compared with the switches after every enter/exit/statement and every untracked statement is checked for "
         "'nothing recorded'.  non-trivial when >=1 scope was left by an exception; distinct by (event kind, outcome)"
     )
-    expected_probes = ["c15.switch_checked", "c15.exceptional_exit", "c15.untracked_statement_checked"]
+    expected_probes = ["c15.switch_checked", "c15.exceptional_exit", "c15.untracked_statement_checked", "c15.held_scope_opened", "c15.interleaved_exit"]
 
     def generate(self, rng):
         cfg = {
@@ -1771,21 +1772,47 @@ class C15(Prop):
             "max_depth": rng.randint(1, 6),
             "max_nodes": rng.randint(3, 30),
         }
+        # interleavings: scopes held open outside the call stack (generator suspended inside a
+        # with-block, ExitStack, manual __enter__) and left in any order relative to scopes of the
+        # other setting
+        cfg["held_p"] = rng.choice([0, 0, 0.15, 0.3])
         g = Gen(rng, cfg)
         self.nodes = 0
+        self.vstack = {"track": [], "guard": []}
+        self.n_held = 0
         g.leaf()
         g.leaf()
         g.arr()
-        n_top = rng.randint(1, 5)
+        n_top = rng.randint(1, 5 * DEPTH)
         for _ in range(n_top):
             c = rng.random()
-            if c < 0.2:
+            if rng.random() < cfg["held_p"]:
+                self._held(g, rng)
+            elif c < 0.2:
                 g.emit({"k": "toggle", "on": rng.random() < 0.5})
             elif c < 0.4 and cfg["lane"] != "bare":
                 self._stmt(g, rng)
             else:
                 self._scope(g, rng, cfg, 0, [])
         return {"prop": self.id, "cfg": cfg, "events": g.ev}
+
+    _VAR = {"no_autodiff": "track", "mem_guard_on": "guard", "mem_guard_off": "guard"}
+
+    def _held(self, g, rng):
+        """open a held scope, or close one that is the innermost open scope of its own setting"""
+        closable = [vs[-1][1] for vs in self.vstack.values() if vs and vs[-1][0] == "held"]
+        if closable and rng.random() < 0.55:
+            hid = rng.choice(closable)
+            for vs in self.vstack.values():
+                if vs and vs[-1] == ("held", hid):
+                    vs.pop()
+            g.emit({"k": "hold_close", "id": hid, "exc": rng.random() < 0.4})
+        else:
+            self.n_held += 1
+            mgr = rng.choice(["no_autodiff", "mem_guard_on", "mem_guard_off"])
+            self.vstack[self._VAR[mgr]].append(("held", self.n_held))
+            g.emit({"k": "hold_open", "id": self.n_held, "mgr": mgr, "style": rng.choice(["gen", "gen", "stack", "manual"])})
+        g.tracking = not self.vstack["track"]
 
     def _stmt(self, g, rng):
         c8 = PROPS["C08"]
@@ -1806,13 +1833,17 @@ class C15(Prop):
         ev = {"k": "scope", "mgr": mgr, "style": rng.choice(["with", "with", "deco"]), "body": []}
         outer = g._sink
         g._sink = ev["body"]
-        was = g.tracking
+        key = ("with", self.nodes)
+        vs = self.vstack[self._VAR[mgr]]
+        vs.append(key)
         if mgr == "no_autodiff":
             g.tracking = False
         inside_mem = any(m != "no_autodiff" for m in stack + [mgr])
         for _ in range(rng.randint(0, 4)):
             c = rng.random()
-            if c < 0.35 and depth + 1 < cfg["max_depth"]:
+            if rng.random() < cfg.get("held_p", 0):
+                self._held(g, rng)
+            elif c < 0.35 and depth + 1 < cfg["max_depth"]:
                 self._scope(g, rng, cfg, depth + 1, stack + [mgr])
             elif c < 0.45 and (cfg["toggles_anywhere"] or inside_mem):
                 # (main lane: toggles only where a mem-guard scope's exit must overwrite them)
@@ -1823,7 +1854,9 @@ class C15(Prop):
             elif cfg["lane"] != "bare":
                 self._stmt(g, rng)
         g._sink = outer
-        g.tracking = was
+        while vs and vs.pop() != key:
+            pass  # same-setting scopes held open inside the body are closed with it
+        g.tracking = not self.vstack["track"]
         g.emit(ev)
 
     def observers(self, hist):
@@ -1978,6 +2011,8 @@ class C17(Prop):
                     ev["dtype"] = rng.choice(["f8", "f4"])
                 if how != "asarray" and rng.random() < 0.2:
                     ev["constant"] = rng.choice([True, False]) if v.dtype.kind == "f" else True
+                if how == "astype" and rng.random() < 0.5:
+                    ev["copy"] = False  # "if dtype and constant are satisfied, the input tensor is returned"
                 g.emit(ev)
                 if how == "asarray":
                     g.a[ev["out"]] = v
@@ -1987,7 +2022,7 @@ class C17(Prop):
                     npdt = {"f8": np.float64, "f4": np.float32}.get(dtc, v.dtype.type)
                     same = (dtc is None or np.dtype(npdt) == v.dtype) and (ev.get("constant") is None or ev["constant"] is g.t[src].const)
                     g.fam_id += 1
-                    if how in ("astensor", "tensor_nocopy") and same:
+                    if (how in ("astensor", "tensor_nocopy") or (how == "astype" and ev.get("copy") is False)) and same:
                         g.t[ev["out"]] = g.t[src]
                     else:
                         g.t[ev["out"]] = G(np.array(v, dtype=npdt, copy=True), ev.get("constant", g.t[src].const if how in ("copy", "astype") else None) or False, -1, g.fam_id)
